@@ -70,7 +70,8 @@ def cases(seed, tier):
     out = []
     for i in range(n_shapes):
         prng = random.Random(rng.getrandbits(64))
-        P = gjoins.gen_join_shape(prng)
+        P = gjoins.gen_join_shape(
+            prng, force='deep-dead-chain' if i % 9 == 8 else None)
         out.append({'kind': 'shape', 'program': P,
                     'outcomes': gdirect.gen_outcomes(prng, P, p_fail=0.2),
                     'uuid_seed': prng.randint(0, 10 ** 6),
